@@ -55,8 +55,24 @@ pub fn mk(width: u8, nfats: u32, ext_flags: u16, nibble: u32, nfree: usize, name
     vol::cfg_from(name, img, Some(cands))
 }
 
+/// volume with the largest cluster count of its FAT width (4084 / 65524): only the `nfree` highest-numbered clusters
+/// are free, so every allocation hands out cluster numbers 0xFEE..=0xFF5 resp. 0xFFEE..=0xFFF5, just below the
+/// reserved values of the width
+pub fn mk_top(width: u8, nfree: u32, name: &str) -> Cfg {
+    let mut s = MkSpec::new(width);
+    s.clusters = if width == 12 { 4084 } else { 65524 };
+    let mut b = Builder::new(s);
+    let last = b.geo.max_cluster();
+    let keep: Vec<u32> = (last + 1 - nfree..=last).collect();
+    b.ballast(&keep);
+    let img = b.finish();
+    vol::cfg_from(name, img, Some(keep))
+}
+
 pub fn configs(th: bool) -> Vec<Cfg> {
     let mut v = Vec::new();
+    v.push(mk_top(12, 8, "m12-top"));
+    v.push(mk_top(16, 8, "m16-top"));
     for width in [12u8, 16] {
         for nfats in 1..=3u32 {
             v.push(mk(width, nfats, 0, 0, 5, &format!("m{width}-{nfats}f")));
@@ -68,6 +84,9 @@ pub fn configs(th: bool) -> Vec<Cfg> {
             v.push(mk(32, nfats, 0x80 | active as u16, 0, 5, &format!("m32-{nfats}f-active{active}")));
         }
     }
+    // mirroring enabled, stale non-zero active-copy number (meaningless while mirroring is on)
+    v.push(mk(32, 2, 0x01, 0, 5, "m32-2f-mirror-stale1"));
+    v.push(mk(32, 3, 0x02, 0, 5, "m32-3f-mirror-stale2"));
     // reserved top nibbles pre-set on every entry
     v.push(mk(32, 2, 0, 0xA, 5, "m32-2f-mirror-nibA"));
     v.push(mk(32, 2, 0x81, 0xA, 5, "m32-2f-active1-nibA"));
